@@ -1,6 +1,7 @@
 package main
 
 import (
+	"encoding/base64"
 	"fmt"
 	"math"
 	"unicode/utf8"
@@ -36,11 +37,29 @@ func runC14(cfg config) {
 	}
 	// receivers are supplied as variables: System strings and FHIR string-like elements
 	mkRecv := func(s string) (any, string) {
-		switch r.intn(4) {
+		// a string that is the canonical base64 text of some bytes is, half of the time, a base64Binary element
+		if raw, err := base64.StdEncoding.DecodeString(s); err == nil && len(s) > 0 && base64.StdEncoding.EncodeToString(raw) == s && r.intn(2) == 0 {
+			return &dtpb.Base64Binary{Value: raw}, "FHIR.base64Binary"
+		}
+		switch r.intn(12) {
 		case 0:
 			return &dtpb.String{Value: s}, "FHIR.string"
 		case 1:
 			return &dtpb.Markdown{Value: s}, "FHIR.markdown"
+		case 2:
+			return &dtpb.Code{Value: s}, "FHIR.code"
+		case 3:
+			return &dtpb.Id{Value: s}, "FHIR.id"
+		case 4:
+			return &dtpb.Uri{Value: s}, "FHIR.uri"
+		case 5:
+			return &dtpb.Url{Value: s}, "FHIR.url"
+		case 6:
+			return &dtpb.Canonical{Value: s}, "FHIR.canonical"
+		case 7:
+			return &dtpb.Oid{Value: s}, "FHIR.oid"
+		case 8:
+			return &dtpb.Uuid{Value: s}, "FHIR.uuid"
 		}
 		return system.String(s), "String"
 	}
@@ -92,7 +111,7 @@ func runC14(cfg config) {
 		return "(Ok OOther)"
 	}
 	var strs []string
-	strs = append(strs, "", "a", "é", "😀", "abc", "aé€😀", "éx", "abcabc", "aaa", "中中a中")
+	strs = append(strs, "", "a", "é", "😀", "abc", "aé€😀", "éx", "abcabc", "aaa", "中中a中", "QUJD", "//4AQcMo6Q==", "AAAA", "w6k=", "8J+YgA==", "abcdabcd")
 	// exhaustive over length <= 2 of a 4-symbol sub-alphabet mixing 1-, 2-, 3- and 4-byte code points
 	sub := []rune{'a', 'é', '€', '😀'}
 	for _, x := range sub {
